@@ -383,7 +383,7 @@ def coq_ops(d, be):
         return f"(OModeDotZ {b} ({o['mode']})%Z {C.boolc(o['transpose'])})"
     if fn == "mode_dot":
         return f"(OModeDot {b} {o['mode']}%nat {C.boolc(o['transpose'])})"
-    if fn == "multi_mode_dot" and o["modes"] is not None and any(m < 0 for m in o["modes"]):
+    if fn == "multi_mode_dot" and o["modes"] is not None:      # explicit modes (negative, repeated, any order): the literal Python-int models
         zs = "[" + "; ".join(f"({m})%Z" for m in o["modes"]) + "]"
         return f"(OMultiZ {b} {zs} {opt_nat(o['skip'])} {C.boolc(o['transpose'])})"
     if fn == "multi_mode_dot":
@@ -585,8 +585,7 @@ def gen_descriptors(tier, rng):
     yield D("multi_mode_dot", [g.arr((2, 3)), g.arr((2, 2))], valid=False, modes=[-3], skip=None, transpose=False)
 
     # the same mode named twice or three times (matrix operands): the textbook value is the successive product in listing order
-    # (core backend); the einsum backend contracts every operand with the tensor's original label: known finding
-    # einsum_multi_mode_dot_repeated_modes.  "chain": operand k fits the size left by operand k-1 (well-formed successive
+    # (both backends since /repo a6246d0; before, the einsum backend contracted every operand with the tensor's original label).  "chain": operand k fits the size left by operand k-1 (well-formed successive
     # product); otherwise every operand has the ORIGINAL mode size (the successive product is malformed unless sizes coincide).
     for _ in range(24 if quick else 120):
         s = tuple(rng.choice([2, 3]) for _ in range(rng.randint(1, 3)))   # sizes >= 2: np.einsum broadcasts size-1 axes (outside the model)
@@ -623,6 +622,24 @@ def gen_descriptors(tier, rng):
             J = rng.choice(dims)
             Ms.append(g.arr((sz,)) if rng.random() < 0.4 else g.arr((sz, J) if tr else (J, sz)))
         yield D("multi_mode_dot", [g.arr(s)] + Ms, valid=False, modes=modes, skip=None, transpose=tr)
+
+    # repeated modes with VECTOR operands (and mixes): no textbook value is claimed (valid=None: no reference), but the two backends
+    # must return the same tensor or both reject (must_agree), and both must do what the literal models do
+    for _ in range(30 if quick else 150):
+        s = tuple(rng.choice([2, 2, 3]) for _ in range(rng.randint(2, 3)))
+        k = rng.randint(2, 4)
+        base = rng.randrange(len(s))
+        modes = [base if rng.random() < 0.6 else rng.randrange(len(s)) for _ in range(k)]
+        modes = [m if rng.random() < 0.75 else m - len(s) for m in modes]
+        tr = rng.random() < 0.3
+        cplx = tr and rng.random() < 0.5
+        Ms = []
+        for m in modes:
+            sz = s[m] if rng.random() < 0.8 else rng.choice([2, 3])
+            J = rng.choice([2, 3])
+            Ms.append(g.arr((sz,), cplx) if rng.random() < 0.55 else g.arr((sz, J) if tr else (J, sz), cplx))
+        skip = rng.choice([None, None, rng.randrange(k)])
+        yield D("multi_mode_dot", [g.arr(s, cplx)] + Ms, valid=None, modes=modes, skip=skip, transpose=tr, must_agree=True)
 
     # malformed multi_mode_dot requests (both backends must reject, as the model does): a size mismatch with both sizes >= 2
     # (np.einsum would broadcast a size-1 axis: outside the model), a mode beyond the order, a 3-D operand; a malformed operand
@@ -1010,23 +1027,9 @@ def describe(d, be):
 # ----------------------------------------------------------------------------- known-finding classifiers
 # none: the two findings of round 1 (core inner n_modes=0; core tensordot with unsorted batched modes) were repaired in /repo
 # (f5f06aa, 8cd4a39); their witnesses are regression cases in corpus/C02 and any recurrence is a VIOLATION.
-# earlier findings were repaired in /repo (f5f06aa inner n_modes=0, 8cd4a39 tensordot batch order, 92eb2a5 negative modes of
+# none: all findings so far were repaired in /repo (a6246d0 einsum multi_mode_dot repeated modes, 8b25fc6 size-1 broadcast, f5f06aa inner n_modes=0, 8cd4a39 tensordot batch order, 92eb2a5 negative modes of
 # einsum mode_dot and of both multi_mode_dot); their witnesses are regression Examples / corpus cases and any recurrence is a VIOLATION.
-def _clf_einsum_repeated_modes(f):
-    """einsum multi_mode_dot (its output, its acceptance of a malformed successive product, or its disagreement with the core
-    backend) on a request naming the same resolved mode on two non-skipped operands; every other failing input stays a VIOLATION"""
-    inp = f.get("inputs") or {}
-    o = inp.get("opts") or {}
-    arrs = inp.get("arrays") or []
-    ms = o.get("modes")
-    if not (inp.get("fn") == "multi_mode_dot" and inp.get("backend") in ("einsum", "all") and isinstance(ms, (list, tuple)) and arrs):
-        return False
-    nd = np.asarray(arrs[0]).ndim
-    res = [m + nd if isinstance(m, int) and m < 0 else m for i, m in enumerate(ms) if i != o.get("skip")]
-    return len(set(res)) < len(res)
-
-
-CLASSIFIERS = {"einsum_multi_mode_dot_repeated_modes": _clf_einsum_repeated_modes}
+CLASSIFIERS = {}
 
 
 def entry_point(d, be):
@@ -1237,7 +1240,7 @@ def run(chk):
         oks = [(be, out[1]) for be, out, _ in results if out[0] == "ok" and not isinstance(out[1], tuple)]
         sts = {out[0] == "ok" for _, out, _ in results}
         chk.cov["evaluations"] += 1
-        if agree_ok and d["valid"] is not None and (len(sts) > 1 or any(not same(oks[0][1], v) for _, v in oks[1:])):
+        if agree_ok and (d["valid"] is not None or d["opts"].get("must_agree")) and (len(sts) > 1 or any(not same(oks[0][1], v) for _, v in oks[1:])):
             chk.finding(entry_point(d, "core"), describe(d, "all"), f"{d['fn']}: backends {[b for b, _ in oks]} disagree", "C02_backends_agree")
         if di % 701 == 0:
             be, out, msg = results[0]
